@@ -30,6 +30,7 @@ type argBuilder struct {
 	b     Bounds
 	n     int
 	descs map[string]*gl.StructDesc
+	pkg   *types.Package // the package under validation (types of other packages are qualified)
 }
 
 type unsupportedArg struct{ msg string }
@@ -85,10 +86,18 @@ func (ab *argBuilder) glType(t types.Type) *gl.Type {
 		return &gl.Type{Kind: "map", Elem: ab.glType(u.Elem())}
 	case *types.Struct:
 		if n, ok := t.(*types.Named); ok {
-			return &gl.Type{Kind: "struct", Desc: ab.in.StructDescByName(n.Obj().Name())}
+			return &gl.Type{Kind: "struct", Desc: ab.in.StructDescByName(ab.structName(n))}
 		}
 	}
 	panic(&unsupportedArg{"type " + t.String()})
+}
+
+// structName: the GooseLang name of a named struct type (types of imported packages are qualified).
+func (ab *argBuilder) structName(n *types.Named) string {
+	if ab.pkg != nil && n.Obj().Pkg() != nil && n.Obj().Pkg() != ab.pkg {
+		return n.Obj().Pkg().Name() + "." + n.Obj().Name()
+	}
+	return n.Obj().Name()
 }
 
 // mk builds a related pair of argument values of Go type t.
@@ -144,7 +153,7 @@ func (ab *argBuilder) mk(t types.Type, name string, small bool, depth int) (engi
 		if !ok {
 			panic(&unsupportedArg{"anonymous struct"})
 		}
-		d := ab.in.StructDescByName(named.Obj().Name())
+		d := ab.in.StructDescByName(ab.structName(named))
 		if len(d.Fields) != u.NumFields() {
 			panic(&unsupportedArg{"struct descriptor mismatch for " + named.Obj().Name()})
 		}
@@ -327,7 +336,7 @@ func ValidateFunc(prog *engine.Program, fn *ssa.Function, glp *gl.Program, glNam
 	body := func(m *engine.Machine) {
 		in := gl.NewInterp(m, glp)
 		in.Budget = b.Budget
-		ab := &argBuilder{m: m, in: in, b: b}
+		ab := &argBuilder{m: m, in: in, b: b, pkg: fn.Pkg.Pkg}
 		m.RunInit(fn.Pkg)
 		var goArgs []engine.Value
 		var glArgs []gl.Val
